@@ -142,6 +142,7 @@ func (vc *VC) builtinAppend(fr *Frame, call *ssa.CallCommon, st *State, rt types
 	// new backing array (fresh): contents = old[0..len) ++ add[0..alen)
 	ref := vc.allocRef(st)
 	aid := vc.define("aid", sBV64, aidOf(ref, 0))
+	vc.freshKeys[aid] = true
 	nl := vc.define("apl", sBV64, app("bvadd", s.L[2], add.L[2]))
 	addIsString := isString(add.T)
 	for _, l := range layoutOf(et).Leaves {
@@ -571,6 +572,7 @@ func (vc *VC) havocTargets(st *State, ts []locTarget) {
 	}
 	sort.Strings(names)
 	for _, n := range names {
+		vc.dirty[n] = true
 		srt := byName[n][0].sort
 		if srt == "" {
 			srt = vc.heapSort[n]
